@@ -122,6 +122,8 @@ def validate(nl, fragment, cycles=24, seed=0, extra_stimulus=None):
         for name, var in nl.in_vars.items():
             if var is not None and name in ("clk", "rst"):
                 subs.append((var, z3.BitVecVal(0, var.size())))
+            elif var is not None and var.decl().name() in nl.tied:
+                subs.append((var, nl.tied[var.decl().name()]))
         for sv in nl.state:
             subs.append((sv.var, state[sv.idx]))
         for s in sigs:
